@@ -372,13 +372,17 @@ func (r *rewriter) callKind(c *ast.CallExpr) string {
 				}
 			}
 		}
+		// Stop / Reset of a *time.Timer: the timer may be one created by time.AfterFunc (whose callback is a simulator task)
+		if (f.Sel.Name == "Stop" && len(c.Args) == 0 || f.Sel.Name == "Reset" && len(c.Args) == 1) && r.isTimerPtr(f.X) {
+			return "timer" + f.Sel.Name
+		}
 		if id, ok := f.X.(*ast.Ident); ok {
 			if pn, ok := r.info.Uses[id].(*types.PkgName); ok && pn.Imported().Path() == "time" {
 				switch f.Sel.Name {
 				case "Sleep":
 					return "sleep"
 				case "AfterFunc":
-					r.refuse(c, "time.AfterFunc is not under simulator control")
+					return "afterfunc"
 				}
 			}
 		}
@@ -394,6 +398,20 @@ func (r *rewriter) callKind(c *ast.CallExpr) string {
 		}
 	}
 	return ""
+}
+
+// isTimerPtr: e has type *time.Timer.
+func (r *rewriter) isTimerPtr(e ast.Expr) bool {
+	tv, ok := r.info.Types[e]
+	if !ok || tv.Type == nil {
+		return false
+	}
+	p, ok := tv.Type.(*types.Pointer)
+	if !ok {
+		return false
+	}
+	named, ok := p.Elem().(*types.Named)
+	return ok && named.Obj().Pkg() != nil && named.Obj().Pkg().Path() == "time" && named.Obj().Name() == "Timer"
 }
 
 // renderChildren renders src[from:to) (which must lie inside n) with all rewrite points inside n
@@ -486,6 +504,13 @@ func (r *rewriter) rewrite(n ast.Node) string {
 		case "sleep":
 			st.sleeps++
 			return fmt.Sprintf("simrt.Sleep(%s)", r.render(x.Args[0]))
+		case "afterfunc":
+			st.sleeps++
+			return fmt.Sprintf("simrt.AfterFunc(%s, %s)", r.render(x.Args[0]), r.render(x.Args[1]))
+		case "timerStop":
+			return fmt.Sprintf("simrt.TimerStop(%s)", r.render(unparen(x.Fun).(*ast.SelectorExpr).X))
+		case "timerReset":
+			return fmt.Sprintf("simrt.TimerReset(%s, %s)", r.render(unparen(x.Fun).(*ast.SelectorExpr).X), r.render(x.Args[0]))
 		case "cancel":
 			st.cancels++
 			return fmt.Sprintf("simrt.Cancel(%s)", r.render(x.Fun))
